@@ -211,10 +211,17 @@ class UnionUnpackerBuilder(AbstractUnpackerBuilder):
             unpacker_block = CodeLines()
             if isinstance(unpacker, TypeMatchEligibleExpression):
                 do_try = False
-                if type_match_statements > 1:
-                    condition = f"__value_type is {type_arg.__name__}"
+                # the builtin type the member boils down to ("int(value)",
+                # "None"): the member itself may be a NewType, an alias,
+                # LiteralString ... whose name is not bound in this code
+                if unpacker == "None":
+                    match_type = "NoneType"
                 else:
-                    condition = f"type(value) is {type_arg.__name__}"
+                    match_type = unpacker.partition("(")[0]
+                if type_match_statements > 1:
+                    condition = f"__value_type is {match_type}"
+                else:
+                    condition = f"type(value) is {match_type}"
                 if (condition, unpacker) in unpackers:  # pragma: no cover
                     # we shouldn't be here because condition is always unique
                     continue
